@@ -1,5 +1,6 @@
 import Acra.Lemmas.CRCMpeg
 import Acra.Lemmas.MPEGTS
+import Acra.Props.C09.Mpeg
 namespace Acra.Props.C07
 open Acra.Py Acra.Model.MPEGTS Acra.Model.PMT Acra.Model.PES Acra.Lemmas.CRCMpeg
 
@@ -125,5 +126,49 @@ theorem PMT_crc_std (s : PMT) (b : Bytes) (h : (PMT.pack s).2 = .ok b) :
         refine ⟨hdr ++ db ++ sb, ?_⟩
         rw [(Pkt_pack_keeps _ _).1]
         simp [encCodes, Acra.Gen.PMT.PMT_pack_fmt0, Code.size, encInt, crc32mpeg2_std, beBytes, leBytes]
+
+theorem slice_one_changed (pre suf : Bytes) (a : UInt8) (lo hi : Nat) (h1 : lo ≤ pre.length) (h2 : pre.length < hi) :
+    slice (pre ++ a :: suf) lo hi = List.drop lo pre ++ a :: List.take (hi - pre.length - 1) suf := by
+  obtain ⟨k, hk⟩ : ∃ k, hi - pre.length = k + 1 := ⟨hi - pre.length - 1, by omega⟩
+  have hk' : hi - pre.length - 1 = k := by omega
+  simp only [slice]
+  rw [List.take_append, hk', hk]
+  have : List.take hi pre = pre := List.take_of_length_le (by omega)
+  rw [this, List.take_succ_cons, List.drop_append_of_le_length h1]
+
+theorem slice_after_changed (pre suf : Bytes) (a : UInt8) (lo hi : Nat) (h : pre.length < lo) (hh : pre.length < hi) :
+    slice (pre ++ a :: suf) lo hi = slice suf (lo - pre.length - 1) (hi - pre.length - 1) := by
+  obtain ⟨k, hk⟩ : ∃ k, hi - pre.length = k + 1 := ⟨hi - pre.length - 1, by omega⟩
+  have hk' : hi - pre.length - 1 = k := by omega
+  obtain ⟨m, hm⟩ : ∃ m, lo - pre.length = m + 1 := ⟨lo - pre.length - 1, by omega⟩
+  have hm' : lo - pre.length - 1 = m := by omega
+  simp only [slice]
+  rw [List.take_append, hk', hm', hk]
+  have : List.take hi pre = pre := List.take_of_length_le (by omega)
+  rw [this, List.take_succ_cons, List.drop_append]
+  have : List.drop lo pre = [] := List.drop_eq_nil_of_le (by omega)
+  rw [this, List.nil_append, hm, List.drop_succ_cons]
+
+/-- **STANAG.detects_flip** at the level of the decoded PES data: if a 36-byte metadata block is
+    accepted, the block that differs from it in exactly one byte of the checksummed region
+    `[5, 34)` (key, BER length, tags, lengths, time) is rejected -/
+theorem STANAG_detects_flip_partial (t : STANAG) (buf buf' : Bytes) (p p' : PES) (pre suf : Bytes) (a a' : UInt8)
+    (hp : PES.unpack t.pes buf = (p, .ok ())) (hp' : PES.unpack t.pes buf' = (p', .ok ()))
+    (hd : p.pesdata = pre ++ a :: suf) (hd' : p'.pesdata = pre ++ a' :: suf) (hne : a ≠ a')
+    (hlen : (pre ++ a :: suf).length = 36) (hpos : 5 ≤ pre.length ∧ pre.length < 34)
+    (hok : (STANAG.unpack t buf).2 = .ok ()) : (STANAG.unpack t buf').2 ≠ .ok () := by
+  intro hok'
+  have h1 := (Acra.Props.C09.STANAG_accepts_iff t buf p hp).mp hok
+  have h2 := (Acra.Props.C09.STANAG_accepts_iff t buf' p' hp').mp hok'
+  rw [hd] at h1
+  rw [hd'] at h2
+  have hlen' : (pre ++ a' :: suf).length = 36 := by simpa using hlen
+  obtain ⟨_, _, _, _, _, c1⟩ := h1
+  obtain ⟨_, _, _, _, _, c2⟩ := h2
+  rw [hlen] at c1
+  rw [hlen'] at c2
+  rw [slice_one_changed pre suf a 5 (36 - 2) hpos.1 (by omega), slice_after_changed pre suf a 34 36 (by omega) (by omega)] at c1
+  rw [slice_one_changed pre suf a' 5 (36 - 2) hpos.1 (by omega), slice_after_changed pre suf a' 34 36 (by omega) (by omega)] at c2
+  exact checksum_detects_byte _ _ a a' hne (c1.trans c2.symm)
 
 end Acra.Props.C07
